@@ -116,4 +116,11 @@ PROPS = {
         note="Messages are delivered as Go values by the fake connection (not through the wire codec); canonical goroutine schedule; header values outside the alphabet not covered.",
         parts=[part("messages", "internal/corerad", "TestVerifC18", mode="sched", gomaxprocs=2, shards={"quick": 8, "thorough": 16})],
     ),
+    "C04": dict(
+        level="model_checking", engine="seq",
+        technique="bounded-exhaustive enumeration of event histories (forwarding flips interleaved with RA generation on all seven paths) executed on the instrumented real Advertiser, Metrics and debug API under a virtual clock; invariants checked after every event",
+        text="All histories of up to K events over {flip, periodic tick, unicast RS, RS from ::, received RA} followed by termination, for three default_lifetime settings, both initial forwarding states and two probing modes, run on the real advertiser; every transmitted RA must deep-equal the reference RA for the forwarding state at that moment, the log line count must equal the number of overridden generations, and the forwarding/misconfiguration gauges and the API lifetime must track the live state per interface.",
+        note="Canonical goroutine schedule; flips happen at instants where no RA is being built (the concurrent case is C17's); the second advertising interface and the monitor interface exist for the scrape/API paths only.",
+        parts=[part("histories", "internal/corerad", "TestVerifC04", mode="sched", gomaxprocs=2, shards={"quick": 12, "thorough": 16})],
+    ),
 }
